@@ -15,7 +15,7 @@ OBLIGATION_PATTERNS = [
     'unable to prove', 'cannot show', 'failed to prove', 'loop invariant not preserved',
     'assertion not satisfied', 'recursive call', 'could not prove termination',
     'constructed value may fail to meet its declared type invariant',
-    'possible overflow', 'possible underflow', 'could not show',
+    'possible overflow', 'possible underflow', 'could not show', 'precondition not met',
 ]
 # messages that mean the tool could not decide
 UNDECIDED_PATTERNS = [
